@@ -2851,6 +2851,7 @@ echs_evical_pull(ical_parser_t p[static 1U])
 
 	/* just let _ical_pull do the yakka and we split everything
 	 * into evical vevents and evrruls */
+again:
 	if (UNLIKELY(*p == NULL)) {
 		/* how brave */
 		;
@@ -2859,8 +2860,20 @@ echs_evical_pull(ical_parser_t p[static 1U])
 		;
 	} else if (UNLIKELY(ve == ICAL_EOP)) {
 		/* oh, do the big cleaning up */
-		_ical_fini(*p);
-		free(*p);
+		struct ical_parser_s *_p = *p;
+		const char *buf = _p->buf;
+		const size_t bsz = _p->bsz;
+		const size_t bix = _p->bix;
+
+		_ical_fini(_p);
+		if (bix < bsz) {
+			/* there's more in this chunk, whatever follows must
+			 * not depend on where the chunk happens to end */
+			_ical_push(_p, buf, bsz);
+			_p->bix = bix;
+			goto again;
+		}
+		free(_p);
 		*p = NULL;
 	} else {
 		struct ical_parser_s *_p = *p;
